@@ -124,6 +124,31 @@ def coverage_world(seed, kinds, annotated=False):
                         add(start + 100, cur + 900, intron=(start + 400, cur + 500))
                     cur = cur + 1000
             end = cur
+        elif kind == "gene_valley":
+            # a four-exon gene with a 36-kb middle intron: pile-ups over exons 1-2 and 3-4, ONE full-length read bridging the
+            # coverage-1 stretch (processed in both sub-regions), which also has a secondary alignment upstream of the cluster
+            from vlib.world import Gene, Transcript
+            gx = [(start, start + 400), (start + 2000, start + 2400), (start + 38500 + rng.randint(0, 700), 0), (0, 0)]
+            gx[2] = (gx[2][0], gx[2][0] + 400)
+            gx[3] = (gx[2][1] + 1600, gx[2][1] + 2000)
+            strand = rng.choice("+-")
+            gv = Gene("GV%d" % len(clusters), "chr1", strand)
+            gv.transcripts.append(Transcript(gv.id + ".t1", gv.id, "chr1", strand, list(gx), True, "gene-over-valley"))
+            for intr in gv.transcripts[0].introns:
+                w.plant_sites("chr1", intr, strand)
+            w.genes.append(gv)
+            g0 = Gene("GS%d" % len(clusters), "chr1", strand)        # mono-exonic gene under the secondary alignment
+            g0.transcripts.append(Transcript(g0.id + ".t1", g0.id, "chr1", strand, [(start - 1600, start - 900)], True, "mono"))
+            w.genes.append(g0)
+            for _ in range(25):
+                r = w.make_read("chr1", [(gx[0][0] + rng.randint(0, 40), gx[0][1]), (gx[1][0], gx[1][1] - rng.randint(0, 40))], truth={"cluster": len(clusters), "kind": kind})
+                names.append(r.name)
+                r = w.make_read("chr1", [(gx[2][0] + rng.randint(0, 40), gx[2][1]), (gx[3][0], gx[3][1] - rng.randint(0, 40))], truth={"cluster": len(clusters), "kind": kind})
+                names.append(r.name)
+            r = w.make_read("chr1", [(gx[0][0] + 3, gx[0][1])] + gx[1:3] + [(gx[3][0], gx[3][1] - 5)], truth={"cluster": len(clusters), "kind": kind, "bridge": True})
+            names.append(r.name)
+            w.make_read("chr1", [(start - 1500, start - 1010)], name=r.name, flag=256, mapq=60, truth={"cluster": len(clusters), "kind": kind, "bridge-secondary": True})
+            end = gx[3][1]
         elif kind == "small":
             for _ in range(rng.randint(5, 40)):
                 s = start + rng.randint(0, 2000)
@@ -248,12 +273,12 @@ def run(chk, scratch):
     thorough = chk.tier == "thorough"
     chk.rule = ("generated coverage profiles: >=1024-read pile-ups inside one and two 256-bp bins, dense blocks separated by thin valleys at random "
                 "offsets relative to the bins, a valley followed by short reads lying only in the last bin, >32 kb sparse clusters, spliced reads bridging "
-                "blocks, small clusters; supplementary and unmapped records as labelled filtered categories; x {BAM storage, in-memory storage} x "
+                "blocks, a gene over a coverage-1 stretch whose only bridging read also has a secondary alignment elsewhere, small clusters; supplementary and unmapped records as labelled filtered categories; x {BAM storage, in-memory storage} x "
                 "{annotation-free, annotated}; in-process collector + CLI runs. non-trivial = distinct (cluster kind, #regions returned, storage, annotated) "
                 "tuples where the cluster was split into >=2 regions or fell into the single-bin case")
     n_inproc = 40 if thorough else 6
     n_cli = 10 if thorough else 2
-    kind_sets = [["pile1bin", "valleys", "small"], ["valleys_tail", "long_sparse"], ["pile2bins", "bridged", "valleys"],
+    kind_sets = [["pile1bin", "valleys", "small"], ["valleys_tail", "long_sparse", "gene_valley"], ["pile2bins", "bridged", "valleys"],
                  ["valleys_tail", "pile1bin"], ["long_sparse", "valleys", "small"], ["bridged", "valleys_tail"]]
     jobs = []
     worlds = {}
